@@ -412,6 +412,10 @@ pub struct Stats {
     pub adversary_ops: u64,
     pub races_checked: u64,
     pub max_admissible: u64,
+    /// Most simulated threads that existed at once (started and not yet through their
+    /// thread-local destructors), main included.
+    pub peak_live_threads: u64,
+    pub live_threads: u64,
 }
 
 pub struct Outcome {
@@ -792,6 +796,10 @@ impl Runtime {
             self.threads.push(th);
         }
         self.stats.threads_spawned += 1;
+        self.stats.live_threads += 1;
+        if self.stats.live_threads > self.stats.peak_live_threads {
+            self.stats.peak_live_threads = self.stats.live_threads;
+        }
         tid
     }
 
@@ -809,6 +817,7 @@ impl Runtime {
             self.in_api = self.in_api.saturating_sub(1);
         }
         self.stats.thread_exits += 1;
+        self.stats.live_threads = self.stats.live_threads.saturating_sub(1);
         let fin_clock = self.threads[t].clock;
         for i in 0..self.threads.len() {
             if self.threads[i].state == TState::BlockedJoin(t) {
@@ -1414,6 +1423,10 @@ pub fn last_probe_and_op() -> (usize, u8) {
         }
         None => (usize::MAX, 255),
     }
+}
+
+pub fn peak_live_threads() -> u64 {
+    rt().map(|r| r.stats.peak_live_threads).unwrap_or(0)
 }
 
 pub fn threads_in_api() -> u32 {
